@@ -13,6 +13,7 @@
   C10d: equality ignores order.  C10e: assigning another element's style copies the map.
 -/
 import AHP.Lemmas.AttrsStyleAmp
+import AHP.Lemmas.AttrsWriteRead
 namespace AHP.C10
 open AHP AHP.Attrs
 
@@ -252,16 +253,178 @@ theorem assign_copies {m : AL Str} (h : StyRT m) (b : El) :
   · next he => simp only at he; rw [ahas_adel_same, he]; rfl
   · next he => simp only at he; rw [ahas_aset_same]; simp at he; simp [he]
 
-/-- … and the two elements stay separate values: an operation on one is not an operation on the other (the model
-    copies by value as the code copies through a string; aliasing of Python objects is exercised by the oracle) -/
-theorem assign_no_alias (T : Tables) (a b : El) (op : Op) :
-    let b' := assignStyleFrom a.sty b
-    ((step T a op).2, b') = ((step T a op).2, assignStyleFrom a.sty b) ∧ (a, (step T b' op).2).1 = a := ⟨rfl, rfl⟩
+/- C10e, "copying a style between elements never aliases them": NOT a theorem here.  The clause is about Python
+   object identity (after `b.style = a.style` the two elements do not share one `StyleAttribute` object).  The model's
+   elements are values: "an operation on `a` leaves `b` alone" is `x = x` for two variables (the former
+   `assign_no_alias` was exactly that, proved by `⟨rfl, rfl⟩`, and has been removed after the review of the statements,
+   design.d/reviews/review-A-C01-C10.md row 3).  What IS proved: the assignment copies the map (`assign_copies`,
+   `write_read_map` below).  The clause itself is checked on the real code only: oracle
+   `harness/ahpcheck/props/c10.py`, failure kind `aliased` (five kinds of receiving element — new, clone, deepcopy,
+   unpickled, unpickled through setAttribute — write to the copy / to the source, read the other), every history. -/
 
 /-- interleavings: every operation that does not address the style attribute (other attributes, class writers,
     readers) leaves the style map exactly as it was -/
 theorem other_operations_keep_style (T : Tables) (op : Op) (h : KeepsStyle T op) (e : El) : (step T e op).2.sty = e.sty :=
   step_sty_frame T op h e
+
+/-! ### C10f — WRITE → READ and FRAME for the style writers
+
+  Property writers: `style.<camel> = v`, `setStyle`, `setStyles`, `style.setProperty`.  Whole-style writers:
+  `style = <string>`, `style = other.style`, `setAttribute('style', v)`, `attributes['style'] = v`,
+  `removeAttribute('style')`, `del attributes['style']` (any spelling of the key). -/
+
+theorem validName_of_style {k : Str} (hk : lower k = styleK) : validName k = true := by
+  rw [← validName_lower, hk]; decide
+
+/-- one property write on a map: an empty value (`''`, `None`) removes, any other value sets (existing property keeps
+    its place, a new one goes last) -/
+def writeProp (m : AL Str) (n : Str) (v : Option Str) : AL Str :=
+  if emptyVal v then adel n m else aset n (v.getD []) m
+
+/-- WRITE → READ, the map, property writers: `style.<camel> = v` and `setStyle(camel, v)` write the dash name,
+    `setProperty(name, v)` the name as given; `setStyles` is the sequence of `setStyle` calls -/
+theorem write_read_property (n : Str) (v : Option Str) (l : List (Str × Option Str)) (e : El) :
+    (styleDotSet n v e).sty = writeProp e.sty (camelToDash n) v ∧ (setStyle n v e).sty = writeProp e.sty (camelToDash n) v ∧
+    (setProperty n v e).sty = writeProp e.sty n v ∧
+    (setStyles l e).sty = l.foldl (fun m p => writeProp m (camelToDash p.1) p.2) e.sty := by
+  refine ⟨styleDotSet_sty n v e, styleDotSet_sty n v e, setProperty_sty n v e, ?_⟩
+  induction l generalizing e with
+  | nil => rfl
+  | cons p l ih =>
+    unfold setStyles
+    simp only [List.foldl_cons]
+    have := ih (setStyle p.1 p.2 e)
+    unfold setStyles at this
+    rw [this]
+    show List.foldl _ (styleDotSet p.1 p.2 e).sty l = _
+    rw [styleDotSet_sty]
+    rfl
+
+/-- reading the written property back, and every other property unchanged -/
+theorem writeProp_read (m : AL Str) (n : Str) (v : Option Str) (k : Str) :
+    aget k (writeProp m n v) = if k = n then (if emptyVal v then none else some (v.getD [])) else aget k m := by
+  unfold writeProp
+  by_cases hk : k = n
+  · subst hk
+    simp only [if_true]
+    split
+    · exact aget_adel_same _ _
+    · exact aget_aset_same _ _ _
+  · simp only [hk, if_false]
+    split
+    · exact aget_adel_ne hk _
+    · exact aget_aset_ne hk _ _
+
+/-- WRITE → READ through the property readers: after `setStyle(n, s)` (`s` non-empty) `style.<n>` and
+    `getStyle(dash name)` give `s`; after an empty value they give `''`; any other property reads as before -/
+theorem write_read_setStyle (n : Str) (v : Option Str) (e : El) :
+    styleDotGet n (setStyle n v e) = (if emptyVal v then [] else v.getD []) ∧
+    getStyle (camelToDash n) (setStyle n v e) = (if emptyVal v then [] else v.getD []) ∧
+    (∀ n', camelToDash n' ≠ camelToDash n → styleDotGet n' (setStyle n v e) = styleDotGet n' e) := by
+  have hs := (write_read_property n v [] e).2.1
+  refine ⟨?_, ?_, ?_⟩
+  · rw [view_dot, hs, writeProp_read, if_pos rfl]
+    split <;> rfl
+  · rw [view_getStyle, lower_of_noUpper (camelToDash_noUpper n), hs, writeProp_read, if_pos rfl]
+    split <;> rfl
+  · intro n' hne
+    rw [view_dot, view_dot, hs, writeProp_read, if_neg hne]
+
+/-- WRITE → READ, the map, whole-style writers: the map becomes `styleToDict` of the assigned string (`None`: the empty
+    map) — through `setAttribute` / the mapping as well, although those copy the parsed style once more through its
+    text (`styleToDict_render_idem`); assigning another element's style (`src` = what was assigned to it) likewise;
+    the removers empty it -/
+theorem write_read_map (T : Tables) {k : Str} (hk : lower k = styleK) (v : Option Str) (src : Str) (e : El) :
+    (assignStyle v e).sty = styleToDict (v.getD []) ∧
+    (setAttribute T k v e).2.sty = styleToDict (v.getD []) ∧ (setAttribute T k v e).1 = .ok ∧
+    (mapSet T k v e).2.sty = styleToDict (v.getD []) ∧
+    (assignStyleFrom (styleToDict src) e).sty = styleToDict src ∧
+    (removeAttribute k e).sty = [] ∧ (mapDel k e).sty = [] := by
+  have hv := validName_of_style hk
+  refine ⟨assignStyle_sty v e, ?_, setAttribute_valid T hv v e, ?_, ?_, ?_, ?_⟩
+  · rw [setAttribute_eq_mapSet T hv, mapSet_style T hk]; exact ensureStyle_sty _
+  · rw [mapSet_style T hk]; exact ensureStyle_sty _
+  · rw [assignStyleFrom_eq]; exact ensureStyle_sty _
+  · unfold removeAttribute
+    rw [mapDel_style (by rw [lower_idem]; exact hk)]; exact ensureStyle_sty _
+  · rw [mapDel_style hk]; exact ensureStyle_sty _
+
+/-- WRITE → READ, every view: in a reachable state whose map is `m` — the state each writer above leaves —
+    `str(style)`, `attributes['style']`, `getAttribute('style')`, the presence tests and the one list of C08 read
+    `m` / its rendering back -/
+theorem write_read_views (T : Tables) (hT : StylePlain T) (m : AL Str) {e' : El} (hr : Reach T e') (h : e'.sty = m)
+    (d : PyVal) :
+    styleStr e' = asStr m ∧ getitem T styleK e' = .style (asStr m) ∧
+    (getAttribute T styleK d e').1 = .style (asStr m) ∧
+    hasAttribute styleK e' = !m.isEmpty ∧ contains styleK e' = !m.isEmpty ∧
+    aget styleK (viewList e') = (if m.isEmpty then none else some (some (asStr m))) := by
+  refine ⟨?_, ?_, ?_, ?_, ?_, ?_⟩
+  · rw [view_str, h]
+  · rw [view_getitem T lower_styleK, h]
+  · rw [view_getAttribute T lower_styleK hT, h]
+  · rw [presence_hasAttribute hr lower_styleK, h]
+  · rw [presence_contains hr lower_styleK, h]
+  · rw [view_attrsList, h]
+
+/-- reachability is closed under every operation -/
+theorem reach_step {T : Tables} {e : El} (h : Reach T e) (op : Op) : Reach T (step T e op).2 := by
+  obtain ⟨tag, sc, attrs, ops, rfl⟩ := h
+  refine ⟨tag, sc, attrs, ops ++ [op], ?_⟩
+  unfold run
+  rw [List.foldl_append]
+  rfl
+
+/-- e.g. `setAttribute('style', s)` then the views: the composite -/
+theorem write_read_setAttribute (T : Tables) (hT : StylePlain T) {e : El} (hr : Reach T e) (s : Str) (d : PyVal) :
+    styleStr (setAttribute T styleK (some s) e).2 = asStr (styleToDict s) ∧
+    (getAttribute T styleK d (setAttribute T styleK (some s) e).2).1 = .style (asStr (styleToDict s)) ∧
+    hasAttribute styleK (setAttribute T styleK (some s) e).2 = !(styleToDict s).isEmpty :=
+  have h := write_read_views T hT (styleToDict s) (reach_step hr (.setAttr styleK (some s)))
+    ((write_read_map T lower_styleK (some s) [] e).2.1) d
+  ⟨h.1, h.2.2.1, h.2.2.2.1⟩
+
+/-- FRAME: a style writer leaves every other key of the mapping — `class` included — listed as it was, and the class
+    list untouched.  `op` ranges over the operations that address `style` only. -/
+theorem write_frame_other_keys (T : Tables) (op : Op) (hop : addresses T op = [styleK]) {e : El} (h : DictInv e)
+    {k : Str} (hk : k ≠ styleK) :
+    aget k (viewList (step T e op).2) = aget k (viewList e) ∧ (step T e op).2.cls = e.cls := by
+  refine ⟨frame_lookup T op h (by rw [hop]; simpa using hk), step_cls_of_addresses T op e ?_⟩
+  rw [hop]
+  simpa using classK_ne_styleK
+
+/-- the style writers are such operations (any spelling of the key) -/
+theorem style_writers_address_style (T : Tables) {k : Str} (hk : lower k = styleK) (n src : Str) (v : Option Str)
+    (l : List (Str × Option Str)) :
+    addresses T (.styDot n v) = [styleK] ∧ addresses T (.styProp n v) = [styleK] ∧ addresses T (.setStyle n v) = [styleK] ∧
+    addresses T (.setStyles l) = [styleK] ∧ addresses T (.styAssign v) = [styleK] ∧ addresses T (.styCopy src) = [styleK] ∧
+    addresses T (.setAttr k v) = [styleK] ∧ addresses T (.rmAttr k) = [styleK] ∧ addresses T (.mapSet k v) = [styleK] ∧
+    addresses T (.mapDel k) = [styleK] := by
+  simp [addresses, hk]
+
+/-- every style writer is "replace the map, then `_ensureHtmlAttribute`" -/
+theorem writers_shape (T : Tables) {k : Str} (hk : lower k = styleK) (n src : Str) (v : Option Str) (e : El) :
+    styleDotSet n v e = ensureStyle { e with sty := writeProp e.sty (camelToDash n) v } ∧
+    setProperty n v e = ensureStyle { e with sty := writeProp e.sty n v } ∧
+    assignStyle v e = ensureStyle { e with sty := styleToDict (v.getD []) } ∧
+    assignStyleFrom (styleToDict src) e = ensureStyle { e with sty := styleToDict src } ∧
+    (mapSet T k v e).2 = ensureStyle { e with sty := styleToDict (v.getD []) } ∧
+    mapDel k e = ensureStyle { e with sty := [] } :=
+  ⟨rfl, rfl, rfl, assignStyleFrom_eq src e, by rw [mapSet_style T hk], mapDel_style hk e⟩
+
+/-- **The list as a LIST.**  Replacing the style map by `m` and running `_ensureHtmlAttribute` (`writers_shape`) is
+    `d['style'] = str(style)` — `del d['style']` for an empty `m` — on the one list: the entry keeps its place when
+    `style` was listed, goes last when it was not, every other entry stays where it is.  Hypothesis `ClassSynced`:
+    the state any list-shaped reader leaves (C08 `write_list_set_after_read`). -/
+theorem write_list_style {e : El} (h : DictInv e) (hs : ClassSynced e) (m : AL Str) :
+    viewList (ensureStyle { e with sty := m }) =
+      if m.isEmpty then adel styleK (viewList e) else aset styleK (some (asStr m)) (viewList e) :=
+  viewList_set_sty h hs.mpr m
+
+/-- in every state: the same on the list without its `class` entry -/
+theorem write_list_style_general {e : El} (h : DictInv e) (m : AL Str) :
+    adel classK (viewList (ensureStyle { e with sty := m })) =
+      if m.isEmpty then adel styleK (adel classK (viewList e))
+      else aset styleK (some (asStr m)) (adel classK (viewList e)) := viewList_style_general h m
 
 /-! ### non-vacuity -/
 
@@ -306,5 +469,30 @@ example : (run T0 (mk T0 ['d', 'i', 'v'] false [("style".toList, some "top: 1px"
 /-- outside the operand condition the re-parse does change the map: `&quot;` in a value is read back as `"` -/
 example : (reparse T0 (run T0 (mk T0 ['d', 'i', 'v'] false []) [.styProp "content".toList (some "&quot;".toList)])).1.sty
     ≠ (run T0 (mk T0 ['d', 'i', 'v'] false []) [.styProp "content".toList (some "&quot;".toList)]).sty := by decide
+
+/-! non-vacuity of C10f -/
+
+/-- `setAttribute('STYLE', 'Color: RED; junk; top : 1px')` replaces the map by what the string parses to -/
+example : ((setAttribute T0 "STYLE".toList (some "Color: RED; junk; top : 1px".toList)
+      (run T0 (mk T0 ['d', 'i', 'v'] false []) [.styProp "float".toList (some "left".toList)])).2).sty
+    = [("color".toList, "RED".toList), ("top".toList, "1px".toList)] := by decide
+/-- `setStyles` is the sequence of `setStyle` calls; an empty value removes -/
+example : (setStyles [("paddingTop".toList, some "5px".toList), ("float".toList, none), ("color".toList, some "red".toList)]
+      (run T0 (mk T0 ['d', 'i', 'v'] false []) [.styProp "float".toList (some "left".toList)])).sty
+    = [("padding-top".toList, "5px".toList), ("color".toList, "red".toList)] := by decide
+/-- a `ClassSynced` state with a class and an attribute: a style write puts `style` last, a second one rewrites it in
+    place, emptying the style deletes the entry; nothing else moves -/
+def eS : El := run T0 (mk T0 ['d', 'i', 'v'] false [(classK, some ['a']), ("id".toList, some ['i'])]) [.sync]
+example : DictInv eS ∧ ClassSynced eS := ⟨reach_inv ⟨_, _, _, _, rfl⟩, by unfold ClassSynced; decide⟩
+example : viewList (setStyle "top".toList (some "1px".toList) eS)
+    = [("id".toList, some ['i']), (classK, some ['a']), (styleK, some "top: 1px".toList)] := by decide
+example : viewList (setAttribute T0 "title".toList (some ['t']) (setStyle "top".toList (some "1px".toList) eS)).2
+    = [("id".toList, some ['i']), (classK, some ['a']), (styleK, some "top: 1px".toList), ("title".toList, some ['t'])] := by decide
+example : viewList (assignStyle (some "top: 2px; left: 0".toList)
+      (setAttribute T0 "title".toList (some ['t']) (setStyle "top".toList (some "1px".toList) eS)).2)
+    = [("id".toList, some ['i']), (classK, some ['a']), (styleK, some "top: 2px; left: 0".toList), ("title".toList, some ['t'])] := by
+  decide
+example : viewList (removeAttribute styleK (setStyle "top".toList (some "1px".toList) eS))
+    = [("id".toList, some ['i']), (classK, some ['a'])] := by decide
 
 end AHP.C10
